@@ -831,7 +831,78 @@ def prop_C15(ctx):
 
 
 
+# ---------------------------------------------------------------------------------------------- C01
+def obs_sem(s, rec=None):
+    """the SEM summary of the outcome (syn-parsed structure of every impl) - set by run_set(sem=True)"""
+    c = vlib.outcome_class(s)
+    if c != 'ok':
+        return vlib.obs_msgs(s)
+    if rec is not None and s is rec.get('out'):
+        return ('ok', rec.get('sem'))
+    if rec is not None and s is rec.get('model'):
+        return ('ok', rec.get('msem'))
+    return ('ok', None)
+
+
+def trait_ctxs(it):
+    """(kind, fallible, counterpart text, hint) requested by the trait instructions of a generated item"""
+    out = []
+    for a in it.attrs:
+        if isinstance(a, gen.Attr) and a.name in gen.TRAIT_NAMES and hasattr(a, 'cp'):
+            for (k, f) in gen.kinds_of(a.name):
+                out.append((k, f, oracles.norm_ty(a.cp), a.hint))
+    return out
+
+
+def check_struct_meanings(ctx, recs, key_prefix, cell_key=None):
+    n = oos = 0
+    reasons = collections.Counter()
+    for r in recs:
+        it = r.get('item')
+        if it is None or vlib.outcome_class(r['out']) != 'ok' or not r.get('sem'):
+            continue
+        ims = oracles.sem_impls(r['sem'])
+        if ims is None:
+            continue
+        hints = {(k, f, cp): h for k, f, cp, h in trait_ctxs(it)}
+        for key, imp in ims:
+            if key is None:
+                continue
+            kind, fallible, cp, _self = key
+            if (kind, fallible, cp) not in hints:
+                continue
+            try:
+                exp = oracles.expected_struct_meaning(it, kind, fallible, cp, hints[(kind, fallible, cp)])
+            except oracles.OutOfScope as e:
+                oos += 1
+                reasons[str(e)] += 1
+                continue
+            act = oracles.actual_struct_meaning(imp, fallible, kind.endswith('existing'))
+            n += 1
+            if act != exp:
+                ctx.report(r, 'conversion (%s, fallible=%s, %s): the generated body does not deliver the designated values: expected %r, generated %r'
+                           % (kind, fallible, cp, exp, act), 'designated mapping (README rules) vs syn-parsed body of the implementation\'s impl',
+                           key=cell_key or (key_prefix + ':' + kind))
+    return n, oos, reasons
+
+
+def prop_C01(ctx):
+    ctx.build()
+    q = ctx.tier == 'quick'
+    recs = ctx.run_set('designated', gen.c01_cases(ctx.rng, 4000 if q else 40000), obs_sem, sem=True)
+    n, oos, reasons = check_struct_meanings(ctx, recs, 'designated')
+    recs2 = ctx.run_set('index_rename_tuple_dest', gen.c01_cases(ctx.rng, 1000 if q else 10000, index_rename_on_tuple_dest=True) + gen.c01_index_perm_cases(ctx.rng, 300 if q else 3000), obs_sem, sem=True)
+    n2, oos2, reasons2 = check_struct_meanings(ctx, recs2, 'designated', cell_key='index-rename-tuple-dest')
+    ctx.cov['index_rename_impls_checked'] = n2
+    ctx.cov['impls_checked'] = n
+    ctx.cov['impls_outside_statement'] = oos
+    ctx.cov['outside_reasons'] = dict(reasons)
+    generic_sets(ctx, ['struct_grid'], vlib.obs_full)
+    return ctx.finish()
+
+
 PROPS = {
+    'C01': prop_C01,
     'C15': prop_C15,
     'C14': prop_C14,
     'C06': prop_C06,
